@@ -788,14 +788,76 @@ double World::print_weight(Ref r)
 {
    // links a printer never follows downwards (they point outwards or sideways)
    static const char* const outward[] = { "enclosing", "owner", "home_region", "lexical_region", "master", "parent_module", "membership",
-                                          "primary_template", "definition", "specializations" };
+                                          "primary_template", "definition", "specializations", "decl_set" };
+   // links through which a declaration is printed in full; through any other link it is printed by name
+   static const char* const declaring[] = { "body", "elements", "members", "handlers", "bases", "exception", "parameters", "bindings" };
+   auto is_decl = [](int cat) {
+      using ipr::Category_code;
+      switch (Category_code(cat)) {
+      case Category_code::Alias: case Category_code::Base_type: case Category_code::Enumerator: case Category_code::Field: case Category_code::Bitfield:
+      case Category_code::Fundecl: case Category_code::Template: case Category_code::Parameter: case Category_code::Typedecl: case Category_code::Var:
+      case Category_code::EH_parameter: return true;
+      default: return false;
+      }
+   };
    // a region stands for the declarations of its scope
    std::unordered_map<Ref, const ScopeModel*> by_region;
    for (auto& kv : scopes) if (kv.second.region != nullptr) by_region[nref(*kv.second.region)] = &kv.second;
    struct Walk {
       World& w;
       std::unordered_map<Ref, const ScopeModel*>& by_region;
-      std::set<Ref> on_stack;
+      decltype(is_decl)& decl_cat;
+      static bool among(const char* key, const char* const* set, size_t n) { for (size_t i = 0; i < n; ++i) if (std::strcmp(set[i], key) == 0) return true; return false; }
+      // the node an edge leads to, or null when the printer does not descend through it
+      Ref target(const char* key, Ref to, bool& by_name)
+      {
+         by_name = false;
+         if (to == nullptr or to == ABSENT or uintptr_t(to) < 0x1000) return nullptr;
+         if (among(key, outward, sizeof outward / sizeof outward[0])) return nullptr;
+         if (from_block and std::strcmp(key, "region") == 0) return nullptr;          // a block prints its statements, not the declarations of its region
+         auto it = w.recs.find(to);
+         if (it == w.recs.end()) return to;
+         const bool declaring_link = among(key, declaring, sizeof declaring / sizeof declaring[0]);
+         if (not declaring_link and not from_stmt and decl_cat(it->second.exp.cat)) { by_name = true; return nullptr; }      // in a statement position a declaration is printed in full
+         if (World::is_udt_category(it->second.exp.cat) and std::strcmp(key, "initializer") != 0 and std::strcmp(key, "global_namespace") != 0) { by_name = true; return nullptr; }
+         // everything else the harness links is older than what refers to it; a younger target is reached some other way
+         if (not declaring_link and std::strcmp(key, "region") != 0 and std::strcmp(key, "initializer") != 0 and std::strcmp(key, "global_namespace") != 0 and from_seq != 0 and it->second.seq >= from_seq) return nullptr;
+         return to;
+      }
+      uint64_t from_seq = 0;
+      bool from_stmt = false, from_block = false;
+      void each_edge(Ref r, const Rec& rc, const std::function<void(Ref, bool)>& f)
+      {
+         std::vector<std::pair<Ref, bool>> out;
+         bool by_name;
+         from_seq = rc.seq;
+         {
+            using ipr::Category_code;
+            const auto c = Category_code(rc.exp.cat);
+            from_block = c == Category_code::Block;
+            from_stmt = c == Category_code::If or c == Category_code::Switch or c == Category_code::While or c == Category_code::Do or c == Category_code::For
+                     or c == Category_code::For_in or c == Category_code::Labeled_stmt;
+         }
+         for (auto& sl : rc.exp.slots) if (sl.is_ref) { Ref t = target(sl.key, sl.ref, by_name); out.push_back({ t, by_name }); }
+         for (auto& sq : rc.exp.seqs) for (Ref e : sq.elems) { Ref t = target(sq.key, e, by_name); out.push_back({ t, by_name }); }
+         if (auto rs = by_region.find(r); rs != by_region.end()) for (auto& de : rs->second->decls) out.push_back({ nref(*de.decl), false });
+         for (auto& e : out) f(e.first, e.second);
+      }
+      // phase 1: one depth-first forest over everything modelled; edges to a node still on the stack are the back edges
+      std::set<Ref> done, on_stack;
+      void mark(Ref r)
+      {
+         auto it = w.recs.find(r);
+         if (it == w.recs.end() or not done.insert(r).second) return;
+         on_stack.insert(r);
+         each_edge(r, it->second, [&](Ref t, bool) {
+            if (t == nullptr) return;
+            if (on_stack.count(t)) w.weight_back_edges.insert({ r, t });
+            else mark(t);
+         });
+         on_stack.erase(r);
+      }
+      // phase 2: sizes over the graph without its back edges (acyclic, so every sum is final and can be remembered)
       double go(Ref r)
       {
          if (r == nullptr or r == ABSENT or uintptr_t(r) < 0x1000) return 0;
@@ -808,18 +870,39 @@ double World::print_weight(Ref r)
          if (it == w.recs.end()) return own;
          if (it->second.exp.cat == int(ipr::Category_code::String))
             if (const Slot* sz = it->second.exp.find("size"); sz != nullptr and not sz->is_ref and sz->val > 0) own += double(sz->val) / 8;
-         if (not on_stack.insert(r).second) return 0;          // a back edge: counted where it was entered
          double sum = own;
-         auto skip = [](const char* key) { for (auto o : outward) if (std::strcmp(o, key) == 0) return true; return false; };
-         for (auto& sl : it->second.exp.slots) if (sl.is_ref and not skip(sl.key)) sum += go(sl.ref);
-         for (auto& sq : it->second.exp.seqs) if (not skip(sq.key)) for (Ref e : sq.elems) sum += go(e);
-         if (auto rs = by_region.find(r); rs != by_region.end()) for (auto& de : rs->second->decls) sum += go(nref(*de.decl));
+         each_edge(r, it->second, [&](Ref t, bool by_name) {
+            if (by_name) sum += 2;
+            else if (t != nullptr and not w.weight_back_edges.count({ r, t })) sum += go(t);
+         });
          if (sum > 1e12) sum = 1e12;
-         on_stack.erase(r);
          w.weight_memo[r] = sum;
          return sum;
       }
-   } walk{ *this, by_region, { } };
+   } walk{ *this, by_region, is_decl, 0, { }, { } };
+   if (not weight_edges_marked) {
+      weight_edges_marked = true;
+      for (Ref o : order) walk.mark(o);
+   }
+   if (explain_weights) {
+      // the estimate's tree under r, for inspecting a replay
+      std::function<void(Ref, int)> show = [&](Ref x, int d) {
+         auto it = recs.find(x);
+         if (it == recs.end() or d > 8) return;
+         bool bn;
+         std::vector<std::tuple<const char*, Ref, Ref, bool>> es;
+         for (auto& sl : it->second.exp.slots) if (sl.is_ref) { walk.from_seq = it->second.seq; Ref t = walk.target(sl.key, sl.ref, bn); es.push_back({ sl.key, sl.ref, t, bn }); }
+         for (auto& sq : it->second.exp.seqs) for (Ref e : sq.elems) { walk.from_seq = it->second.seq; Ref t = walk.target(sq.key, e, bn); es.push_back({ sq.key, e, t, bn }); }
+         for (auto& [k, raw, t, b] : es) {
+            auto rr = recs.find(raw);
+            const double wt = t ? walk.go(t) : 0.0;
+            std::printf("WEIGHT %*s%s.%s -> %s %s w=%.0f%s\n", d * 2, "", category_name(it->second.exp.cat), k, rr != recs.end() ? category_name(rr->second.exp.cat) : "?",
+                        t ? "follow" : (b ? "by-name" : "skip"), wt, weight_back_edges.count({ x, raw }) ? " BACK" : "");
+            if (t and wt > 200) show(t, d + 1);
+         }
+      };
+      show(r, 0);
+   }
    return walk.go(r);
 }
 
